@@ -8,32 +8,6 @@ Import ListNotations.
 Section Open.
 Variable H : bytes -> bytes.
 
-Definition collision : Prop := exists x y : bytes, x <> y /\ H x = H y.
-
-(** commit + reopen (hash nodes, database resolution, decodeNode): a committed trie reopened by
-    root hash has the same content and root *)
-Definition C07_reopen_statement : Prop :=
-  forall d n kb, canon n ->
-  let '(h, _, set) := trie_commit H n in
-  match trie_open H (set ++ d) h with
-  | Ok r => fst (trie_hash H r) = h /\
-            (exists v r', trie_get (set ++ d) r kb = Ok (v, r') /\
-                          exists n', trie_get d n kb = Ok (v, n'))
-  | _ => n = Empty
-  end \/ collision.
-
-(** proofs: completeness and soundness against a list of blobs keyed by their hashes *)
-Definition C07_proof_complete_statement : Prop :=
-  forall d n kb blobs, canon n -> is_bytes kb -> n <> Empty ->
-  prove H d n kb = Ok blobs ->
-  exists v n', trie_get d n kb = Ok (v, n') /\
-  verify_proof H (fst (trie_hash H n)) kb blobs =
-    match v with [] => VAbsent | _ => VValue v end.
-
-Definition C07_proof_sound_statement : Prop :=
-  forall d n kb blobs v, canon n -> is_bytes kb ->
-  verify_proof H (fst (trie_hash H n)) kb blobs = VValue v ->
-  (exists n', trie_get d n kb = Ok (v, n')) \/ collision.
 
 (** streaming trie: for strictly increasing, prefix-free keys and non-empty values the stack
     trie does not panic and computes the root of the canonical trie [build] *)
